@@ -43,6 +43,11 @@ fn drive_shared(mut it: Iter<'_, Tracked>, sel: &[Obs], script: &[Step]) -> R<()
     let (mut lo, mut hi) = (0usize, sel.len());
     for st in script {
         len_chk("iterator", it.len(), it.size_hint(), hi - lo)?;
+        // nightly only: ExactSizeIterator::is_empty is a provided method an `unstable` arm may override
+        #[cfg(feature = "unstable")]
+        if ExactSizeIterator::is_empty(&it) != (hi == lo) || ExactSizeIterator::is_empty(&it.clone().rev()) != (hi == lo) {
+            return Err(format!("iterator.is_empty() = {} with {} elements not yet produced", ExactSizeIterator::is_empty(&it), hi - lo));
+        }
         match st {
             Step::Next => {
                 chk("next()", it.next(), if lo < hi { Some(&sel[lo]) } else { None })?;
@@ -357,6 +362,10 @@ fn drive_mut(mut it: IterMut<'_, Tracked>, sel: &[Obs], script: &[Step], mut new
     };
     for st in script {
         len_chk("iterator", it.len(), it.size_hint(), hi - lo)?;
+        #[cfg(feature = "unstable")]
+        if ExactSizeIterator::is_empty(&it) != (hi == lo) {
+            return Err(format!("mutable iterator.is_empty() = {} with {} elements not yet produced", ExactSizeIterator::is_empty(&it), hi - lo));
+        }
         match st {
             Step::Next => {
                 let g = it.next();
